@@ -346,6 +346,8 @@ def _work_random(args):
                     o1, o2 = int(rng.integers(0, 50)), int(rng.integers(0, 50))
                     r1 = chain_molecule(os.path.join(workdir, 's%d' % l1), 'X', l1, set(), (0, 0, 0)).residues[0]
                     r2 = chain_molecule(os.path.join(workdir, 's%d' % l2), 'X', l2, set(), (0, 0, 0)).residues[0]
+                    first = guess_residue_restrains(r1, r2, o1, o2)
+                    del first[:]                      # the returned list belongs to the caller
                     pairs = guess_residue_restrains(r1, r2, o1, o2)
                     ev = [{'op': 'Split', 'l1': l1, 'l2': l2, 'o1': o1, 'o2': o2, 'pairs': [[int(i), int(j)] for i, j in pairs]}]
                 elif kind == 'protein':
